@@ -480,6 +480,7 @@ class Executor:
         self.modules = modules if isinstance(modules, (list, tuple)) else [modules]
         self.enums = enums if isinstance(enums, Enums) else Enums(enums)
         self.inline = [re.compile(x) for x in (inline or [])]
+        self.emulate_option_map = False     # opt-in: follow the closure of Option::map / and_then instead of keeping the call opaque
         # private helpers a refactoring introduced are inlined: every first-party function whose name did not
         # exist when the lemmas were written (lib/firstparty_names.json, recorded from the pinned tree)
         self.inline_pred = default_helper_pred()
@@ -955,6 +956,37 @@ class Executor:
                 fr, fn, loc, pj = p[1]
                 return ("ref", (fr, fn, loc, pj + (("v", "Some"), ("f", 0, ""))), True)
             return None
+        if re.match(r"^(?:std::option::)?Option::<.*>::get_or_insert_with(?:::<.*>)?$", c) and len(args) == 2:
+            # like get_or_insert, the value being `f()`; a fn item such as `T::default` is called, a closure stays a symbol
+            f = args[1]
+            if f[0] == "c" and isinstance(f[2], str) and "{closure" not in f[2]:
+                nm = mp.strip_generics(f[2].replace("ZeroSized: ", ""))
+                ty = re.search(r"Option<(.*)>\s*$", self.kind_of_operand_type(func, argops[0]) or "")
+                val = ("app", "Default::default<%s>" % mp.strip_generics(ty.group(1)).strip(), ()) if (nm.endswith("::default") and ty) else ("app", self.fsym(nm), ())
+            else:
+                val = ("app", "call_once", (self.export(st, f),))
+            p = args[0]
+            if p[0] == "ref":
+                self.summaries_used.add("Option::get_or_insert_with")
+                cur = self.deref(st, p)
+                d = disc_of(cur, E)
+                newv = ite(self.binop("Eq", d, C("int", 0)), ("variant", "Option", "Some", (val,)), cur)
+                self.write_placekey(st, p[1], newv)
+                fr, fn, loc, pj = p[1]
+                return ("ref", (fr, fn, loc, pj + (("v", "Some"), ("f", 0, ""))), True)
+            return None
+        if re.match(r"^(?:std::option::)?Option::<.*>::zip(?:::<.*>)?$", c) and len(args) == 2:
+            self.summaries_used.add("Option::zip")
+            a, b = args
+            da, db = disc_of(a, E), disc_of(b, E)
+            both = ("variant", "Option", "Some", (("aggr", "tuple", (proj(proj(a, ("v", "Some"), E), ("f", 0), E), proj(proj(b, ("v", "Some"), E), ("f", 0), E)), None),))
+            none = ("variant", "Option", "None", ())
+            return ite(self.binop("Eq", da, C("int", 1)), ite(self.binop("Eq", db, C("int", 1)), both, none), none)
+        if re.match(r"^(?:std::option::)?Option::<.*>::take$", c) and len(args) == 1 and args[0][0] == "ref":
+            self.summaries_used.add("Option::take")
+            cur = self.deref(st, args[0])
+            self.write_placekey(st, args[0][1], ("variant", "Option", "None", ()))
+            return cur
         m = re.match(r"^(?:std::option::|std::result::)?(Option|Result)::<.*>::(is_none|is_some|is_ok|is_err)$", c)
         if m:
             self.summaries_used.add("Option::is_none/is_some, Result::is_ok/is_err")
@@ -1270,6 +1302,42 @@ class Executor:
                                 if dest is not None:
                                     self.write_placekey(s2, (fr, func, dest[1], dest[2]), o.ret)
                                 work.append((ret, s2))
+                return None
+        # Option::map / Option::and_then with a closure whose body is at hand: None stays None, Some(v) runs the body on v
+        mo = re.match(r"^(?:std::option::)?Option::<.*>::(map|and_then)(?:::<.*>)?$", STD_PREFIX.sub("", callee))
+        if mo and self.summaries and len(args) == 2 and ret is not None and self.emulate_option_map:
+            cf = self.closure_target(args[1])
+            if cf is not None and cf not in self._inline_stack and len(cf.args) == 2:
+                self.summaries_used.add("Option::%s with a closure (None stays None; Some(v): the closure body runs on v)" % mo.group(1))
+                x = args[0]
+                d = disc_of(x, self.enums)
+                for want in (0, 1):
+                    s2 = st.copy()
+                    okb = (d[2] == want) if d[0] == "c" else s2.assume_eq(d, want)
+                    if not okb:
+                        continue
+                    if want == 0:
+                        if dest is not None:
+                            self.write_placekey(s2, (fr, func, dest[1], dest[2]), ("variant", "Option", "None", ()))
+                        work.append((ret, s2))
+                        continue
+                    v = proj(proj(x, ("v", "Some"), self.enums), ("f", 0), self.enums)
+                    clo = args[1]
+                    carg = ("addr", clo) if cf.args[0][1].strip().startswith("&") else clo
+                    fr2 = next(self.frame_seq)
+                    self._inline_stack.append(cf)
+                    try:
+                        sub = self.run(cf, [carg, v], s2, fr2, depth + 1, _count=False)
+                    finally:
+                        self._inline_stack.pop()
+                    for o in sub:
+                        if o.kind != "return":
+                            outs.append(o)
+                            continue
+                        r = ("variant", "Option", "Some", (o.ret,)) if mo.group(1) == "map" else o.ret
+                        if dest is not None:
+                            self.write_placekey(o.state, (fr, func, dest[1], dest[2]), r)
+                        work.append((ret, o.state))
                 return None
         # `source.filter(p).map(f)...collect()` is a loop in disguise too: no element, or one arbitrary element pushed
         # through the closures of the pipeline; what reaches the end is logged as `collect::item(pipeline, value)` and the
